@@ -53,7 +53,42 @@ def run(tier, seed):
     ctx.add_tlc(lv)
     if not lv.ok:
         raise core.ToolError("pipeline machine liveness run failed:\n" + lv.stdout[-3000:])
-    ctx.cov["evaluations"] = 2 * len(inp)
+    # the pipeline machine bound to the code: the hook events of real runs must be behaviours of O2OPipe (spec/Trace_Pipe.tla), with the
+    # machine's invariants (NeverPanics, FoldIsUnroll, ImplsAreDocumented, RejectedIffFaulty) evaluated in every recorded state
+    from checks import pipe_stream
+    import copy
+    pcases, pinp, pruns, pok, pmism, pby = pipe_stream.run_stream(ctx, tier, seed, cap=20000 if quick else None)
+    for mm in pmism:
+        i = pby.get(mm["id"])
+        verdict = pruns[i][-1]["verdict"] if i is not None else "?"
+        ctx.violation({"stream": "pipe", "pc": mm["pc"], "event": mm["ev"]["ev"], "verdict": verdict},
+                      "panic" if verdict == "panic" else "run_is_not_a_behaviour_of_the_pipeline_machine",
+                      {"src": pinp[i]["srcs"][0] if i is not None else "?", "at": mm["at"], "event": mm["ev"], "machine": {k: mm[k] for k in ("pc", "mi", "cur", "k", "errors", "pending")},
+                       "events": pruns[i][1:] if i is not None else []})
+    ctx.cov["pipeline_runs_validated"] = len(pruns)
+    ctx.cov["pipeline_runs_accepted"] = pok
+    ctx.cov["pipeline_events"] = sum(len(r) for r in pruns)
+    ctx.cov["traces_validated_against_impl"] = pok
+    # canary: a run with one impl event dropped / one copied instruction dropped from the merged state must be rejected
+    cand = [r for r in pruns if any(e["ev"] == "impl" for e in r) and any(e["ev"] == "parsed" and any(len(x) >= 2 for x in e["merged"]) for e in r)][:5]
+    bad = []
+    for n, r in enumerate(cand):
+        a = copy.deepcopy(r); a[0]["id"] = f"canary-impl-{n}"; a.remove([e for e in a if e["ev"] == "impl"][0]); bad.append(a)
+        b = copy.deepcopy(r); b[0]["id"] = f"canary-merged-{n}"
+        pe = [e for e in b if e["ev"] == "parsed"][0]
+        for j, x in enumerate(pe["merged"]):
+            if len(x) >= 2:
+                pe["merged"][j] = x[:-1]
+                break
+        bad.append(b)
+    if bad:
+        cok, cm, _ = core.judge_runs("Trace_Pipe", bad, tag="pipe-canary")
+        if cok != 0:
+            raise core.ToolError(f"canary: Trace_Pipe accepted {cok} of {len(bad)} corrupted runs (vacuous trace specification)")
+        ctx.notes.append(f"canary: {len(bad)} corrupted pipeline runs (impl event dropped / merged instruction dropped) all rejected by Trace_Pipe")
+    else:
+        raise core.ToolError("canary: no pipeline run with an impl and a repeated instruction to corrupt")
+    ctx.cov["evaluations"] = 2 * len(inp) + len(pruns)
     ctx.cov["verdicts"] = verdicts
     ctx.cov["panic_sites_seen"] = seen_sites
     ctx.cov["inputs_by_stream"] = {k: sum(1 for s in srcs if s[0] == k) for k in sorted({s[0] for s in srcs})}
@@ -62,7 +97,10 @@ def run(tier, seed):
                        "name at 6 positions), arm coverage (type kind x shape x hint x conversion kind x parameter x small sets of member / variant / "
                        "payload-field instructions), the unfiltered C15 stream, plus all repository inputs and degenerate shapes; each expanded by "
                        "the real derive under catch_unwind in both back-ends.  A panic's file:line is its identity.  distinct_nontrivial = distinct "
-                       "source texts carrying at least one attribute.")
+                       "source texts carrying at least one attribute.  "
+                       "Pipeline trace validation: every input the Author actions of O2OPipe build (<= 2 trait instructions x <= 2 (quick) / 3 members with "
+                       "map / child / repeat / stop_repeat / skip_repeat) is expanded with the hooks on and the recorded events (instr, member, parsed "
+                       "state, impl, verdict + diagnostic classes) are replayed through O2OPipe's actions by TLC.")
     ctx.cov["exhaustive"] = not quick
     for s in srcs[1000:1003]:
         ctx.sample({"stream": s[0], "abstract": s[1], "src": s[2]})
